@@ -5,7 +5,8 @@ import lib
 
 PROP = "C04"
 MODEL_TARGETS = ["Model/HeaderLine.vo"]
-THEOREMS = ["C04_patterns_current", "C04_parse_all", "C04_main_parse", "C04_curves_parse", "C04_missing_period", "C04_numeric_unit", "C04_digit_unit", "C04_no_double_dot_plain", "C04_param_time", "C04_param_parse", "C04_param_time_sweep", "C04_total_on_period_lines", "C04_name_no_period"]
+THEOREMS = ["C04_patterns_current", "C04_parse_all", "C04_main_parse", "C04_curves_parse", "C04_missing_period", "C04_numeric_unit", "C04_digit_unit", "C04_no_double_dot_plain", "C04_param_time", "C04_param_parse", "C04_param_time_sweep", "C04_total_on_period_lines", "C04_name_no_period",
+            "C04_selection_current"]
 ASSUMPTIONS = [
     "regex ASTs are CPython's own parse of the pattern strings in reader.py (translators/regexes.py), matcher semantics = PyLib/Regex.v (validated against re on every generated line)",
     "\\d is modelled as ASCII digits, \\s as str.isspace(); generated fields avoid non-ASCII digits",
@@ -98,6 +99,9 @@ def conformant(sect, m, u, v, d, p):
     return ":" not in d
 
 
+EXPECT_NOPERIOD = {}
+
+
 def layout(m, u, v, d, p):
     return p[0] + m + p[1] + "." + u + p[2] + v + p[3] + ":" + p[4] + d + p[5]
 
@@ -160,6 +164,19 @@ def gen(ctx):
         ("Well", "O", "UWI .      100091604920W300                   :UNIQUE WELL ID"),
         ("Well", "O", "COMP .     ANY OIL COMPANY INC.              :COMPANY"),
     ]
+    # "a line without a period is NAME : VALUE": the FIRST colon separates, whatever follows (colons, clock times and
+    # periods included), in every section kind
+    names = ["NAME", "REMARK", "A B", "X1", "WELL", "\u0413\u041b", "K-1"]
+    values = ["VALUE", "Run 1: ok", "a:b:c", "14:00:32", "2.0", "x.y : z", "", "1: 2.5 :3", "see p.4: note", "07:30 to 09:45", "::", "v"]
+    for k in range(n // 10):
+        sect, code = rng.choice(SECTS)
+        nm, v = rng.choice(names), rng.choice(values)
+        pa, pb, pc, pd = (rng.choice(PADS) for _ in range(4))
+        line = pa + nm + pb + ":" + pc + v + pd
+        if "." in nm or ":" in nm:
+            continue
+        specials.append((sect, code, line))
+        EXPECT_NOPERIOD[line] = (nm.strip(), "", v.strip(), "")
     return cases, specials
 
 
@@ -218,6 +235,9 @@ def run(ctx):
     for sect, code, line in specials:
         got = impl(line, sect)
         hist["special"] += 1
+        if line in EXPECT_NOPERIOD and got != EXPECT_NOPERIOD[line]:
+            res.oracle_violations.append({"payload": {"sect": sect, "line": line, "expect": list(EXPECT_NOPERIOD[line])},
+                                          "what": "line without a period %r in %r -> %r, expected %r" % (line, sect, got, EXPECT_NOPERIOD[line])})
         if line in expected_special and got != expected_special[line]:
             res.oracle_violations.append({"payload": {"sect": sect, "line": line, "expect": list(expected_special[line])},
                                           "what": "documented form %r -> %r" % (line, got)})
